@@ -20,8 +20,10 @@ package c32
 import (
 	"context"
 	"fmt"
+	"os"
 	"runtime/debug"
 	"sort"
+	"strconv"
 	"strings"
 	"testing"
 
@@ -494,8 +496,9 @@ func step(list []fspan, pos int, op uint8) (int, bool) {
 }
 
 var absOps []uint8
-var probePaths [][]uint8
-var deepPaths [][]uint8
+var probePaths [][]uint8 // full: every absolute positioning x every Next/Prev walk of length 3
+var litePaths [][]uint8  // lite: every absolute positioning x walks of length 2, First/Last x walks of length 3
+var deepPaths [][]uint8  // every pair of absolute positionings followed by one relative step
 
 func init() {
 	absOps = append(absOps, opFirst, opLast)
@@ -518,6 +521,11 @@ func init() {
 				}
 			}
 			probePaths = append(probePaths, p)
+			if a == opFirst || a == opLast {
+				litePaths = append(litePaths, p)
+			} else if w%2 == 0 {
+				litePaths = append(litePaths, p[:3])
+			}
 		}
 	}
 	// every pair of absolute positionings followed by one relative step.
@@ -545,6 +553,8 @@ type caseRun struct {
 	thorough bool
 	levelIt  bool
 	verbose  bool
+	full     bool // full probe paths (else lite)
+	deep     bool // additionally the pairs of absolute positionings
 	expCov   [3]uint64
 	fails    []failure
 	trans    int
@@ -661,7 +671,6 @@ type layerSpec struct {
 	exp     [3]uint64
 	lo, hi  int
 	maximal bool
-	deep    bool
 }
 
 // runLayer lists the iterator forward, validates the listing against the oracle and then probes
@@ -764,7 +773,10 @@ func (r *caseRun) probe(ls *layerSpec, list []fspan) bool {
 		}
 		return -1, ""
 	}
-	paths := probePaths
+	paths := litePaths
+	if r.full {
+		paths = probePaths
+	}
 	for pass := 0; pass < 2; pass++ {
 		for _, p := range paths {
 			if j, msg := check(it, p, true); msg != "" {
@@ -777,7 +789,7 @@ func (r *caseRun) probe(ls *layerSpec, list []fspan) bool {
 				return false
 			}
 		}
-		if !ls.deep {
+		if !r.deep {
 			break
 		}
 		paths = deepPaths
@@ -908,11 +920,12 @@ func (r *caseRun) run() {
 	r.state(vlib.Hash("F", fmt.Sprint(flist)))
 	r.outcomes[fmt.Sprintf("fragmenter/%d-fragments", len(flist))]++
 
-	deepSmall := n <= 2 || (r.thorough && n <= 3)
+	r.deep = n <= 2
+	r.full = n <= 2 || (r.thorough && n <= 3)
 
 	// ---- layer 2: keyspan.Iter over the fragments
 	if _, ok := r.runLayer(&layerSpec{layer: "iter", mk: func() keyspan.FragmentIterator { return keyspan.NewIter(cmp, frags) },
-		cv: convTrailer, exp: full, lo: 0, hi: 3, deep: deepSmall}); !ok {
+		cv: convTrailer, exp: full, lo: 0, hi: 3}); !ok {
 		return
 	}
 
@@ -934,7 +947,7 @@ func (r *caseRun) run() {
 				list, ok := r.runLayer(&layerSpec{layer: "truncate", param: param,
 					mk: func() keyspan.FragmentIterator {
 						return keyspan.Truncate(cmp, keyspan.NewIter(cmp, frags), b)
-					}, cv: convTrailer, exp: restrict(full, lo, hi), lo: lo, hi: hi, deep: deepSmall})
+					}, cv: convTrailer, exp: restrict(full, lo, hi), lo: lo, hi: hi})
 				if !ok {
 					return
 				}
@@ -965,7 +978,7 @@ func (r *caseRun) run() {
 				d := &keyspan.DefragmentingIter{}
 				d.Init(comparer, keyspan.NewIter(cmp, in), keyspan.DefragmentInternal, keyspan.StaticDefragmentReducer, new(keyspan.DefragmentingBuffers))
 				return d
-			}, cv: convTrailer, exp: full, lo: 0, hi: 3, maximal: true, deep: deepSmall})
+			}, cv: convTrailer, exp: full, lo: 0, hi: 3, maximal: true})
 		if !ok {
 			return
 		}
@@ -1011,12 +1024,16 @@ func (r *caseRun) run() {
 			m.Init(comparer, keyspan.NoopTransform, new(keyspanimpl.MergingBuffers), childIters()...)
 			return m
 		}
-		list, ok := r.runLayer(&layerSpec{layer: "merging", param: param, mk: mkMerging, cv: convTrailer, exp: full, lo: 0, hi: 3, deep: deepSmall})
+		list, ok := r.runLayer(&layerSpec{layer: "merging", param: param, mk: mkMerging, cv: convTrailer, exp: full, lo: 0, hi: 3})
 		if !ok {
 			return
 		}
 		r.state(vlib.Hash("M", nl, fmt.Sprint(list)))
 		r.outcomes[fmt.Sprintf("merging/%d-levels", nl)]++
+
+		if !isCanonical(a) {
+			continue // the remaining layers do not depend on the order of the levels
+		}
 
 		// compaction-style: DefragmentInternal over the merged levels
 		dlist, ok := r.runLayer(&layerSpec{layer: "defrag-merging", param: param,
@@ -1024,7 +1041,7 @@ func (r *caseRun) run() {
 				d := &keyspan.DefragmentingIter{}
 				d.Init(comparer, mkMerging(), keyspan.DefragmentInternal, keyspan.StaticDefragmentReducer, new(keyspan.DefragmentingBuffers))
 				return d
-			}, cv: convTrailer, exp: full, lo: 0, hi: 3, maximal: true, deep: deepSmall})
+			}, cv: convTrailer, exp: full, lo: 0, hi: 3, maximal: true})
 		if !ok {
 			return
 		}
@@ -1036,7 +1053,7 @@ func (r *caseRun) run() {
 		}
 
 		// user-iteration stack with the logical equality method
-		if isCanonical(a) {
+		{
 			for _, snap := range []uint64{uint64(base.SeqNumMax), 6} {
 				var exp [3]uint64
 				for e := 0; e < 3; e++ {
@@ -1047,7 +1064,7 @@ func (r *caseRun) run() {
 					mk: func() keyspan.FragmentIterator {
 						ui := &rangekeystack.UserIteratorConfig{}
 						return ui.Init(comparer, base.SeqNum(snap), nil, nil, nil, nil, false, &rangekeystack.Buffers{}, childIters()...)
-					}, cv: convLogical, logical: true, exp: exp, lo: 0, hi: 3, maximal: true, deep: deepSmall})
+					}, cv: convLogical, logical: true, exp: exp, lo: 0, hi: 3, maximal: true})
 				if !ok {
 					return
 				}
@@ -1070,8 +1087,8 @@ func (r *caseRun) run() {
 		}
 
 		// LevelIter: every level's fragments cut into files, straddle spans between files
-		if r.levelIt && isCanonical(a) {
-			if !r.runLevelIters(a, levels, full, deepSmall) {
+		if r.levelIt && n <= 3 && isCanonical(a) {
+			if !r.runLevelIters(a, levels, full) {
 				return
 			}
 		}
@@ -1140,7 +1157,7 @@ func cutIntoFiles(frags []keyspan.Span, cut int) *fileSet {
 	return fs
 }
 
-func (r *caseRun) runLevelIters(a []int, levels [][]keyspan.Span, full [3]uint64, deep bool) bool {
+func (r *caseRun) runLevelIters(a []int, levels [][]keyspan.Span, full [3]uint64) bool {
 	// all combinations of cut positions (0 = one file) over the non-empty levels
 	var radices []int
 	for _, l := range levels {
@@ -1178,7 +1195,7 @@ func (r *caseRun) runLevelIters(a []int, levels [][]keyspan.Span, full [3]uint64
 			}
 			fs := sets[l]
 			list, lok := r.runLayer(&layerSpec{layer: "leveliter", param: fmt.Sprintf("%s level=%d", param, l),
-				mk: fs.levelIter, cv: convTrailer, exp: exp, lo: 0, hi: 3, deep: deep})
+				mk: fs.levelIter, cv: convTrailer, exp: exp, lo: 0, hi: 3})
 			if !lok {
 				ok = false
 				return
@@ -1218,7 +1235,7 @@ func (r *caseRun) runLevelIters(a []int, levels [][]keyspan.Span, full [3]uint64
 				m := &keyspanimpl.MergingIter{}
 				m.Init(comparer, keyspan.NoopTransform, new(keyspanimpl.MergingBuffers), iters...)
 				return m
-			}, cv: convTrailer, exp: full, lo: 0, hi: 3, deep: deep})
+			}, cv: convTrailer, exp: full, lo: 0, hi: 3})
 		if !lok {
 			ok = false
 			return
@@ -1249,6 +1266,14 @@ func runCase(c *vlib.Ctx, spans []In, thorough, levelIt, verbose bool) *caseRun 
 	return r
 }
 
+func gcPercent() int {
+	if s := os.Getenv("C32_GOGC"); s != "" {
+		n, _ := strconv.Atoi(s)
+		return n
+	}
+	return 1600
+}
+
 func TestCheck(t *testing.T) {
 	vlib.Main(t, "C32", func(c *vlib.Ctx) {
 		if c.ReplayPath() != "" {
@@ -1272,8 +1297,7 @@ func TestCheck(t *testing.T) {
 		}
 		// The cases allocate many short-lived iterators over a tiny live heap: collect by memory
 		// limit instead of by heap growth (the default spends a third of the CPU in GC barriers).
-		debug.SetGCPercent(-1)
-		debug.SetMemoryLimit(4 << 30)
+		debug.SetGCPercent(gcPercent())
 		maxN := 3
 		if c.Thorough() {
 			maxN = 4
